@@ -1156,12 +1156,13 @@ def _create_converter(dataType):
 
     if isinstance(dataType, ArrayType):
         conv = _create_converter(dataType.elementType)
-        return lambda row: [conv(v) for v in row]
+        return lambda row: [conv(v) for v in row] if row is not None else None
 
     if isinstance(dataType, MapType):
         kconv = _create_converter(dataType.keyType)
         vconv = _create_converter(dataType.valueType)
-        return lambda row: dict((kconv(k), vconv(v)) for k, v in row.items())
+        return lambda row: (dict((kconv(k), vconv(v)) for k, v in row.items())
+                            if row is not None else None)
 
     if isinstance(dataType, NullType):
         return lambda x: None
